@@ -336,7 +336,34 @@ pub fn seedfind(req: &Req) -> R<String> {
 			out.push(sd.to_string());
 		}
 	}
-	Ok(format!("seeds:{}", out.join(",")))
+	// whole-state outliers: the seeds with the lightest and the heaviest 256-bit state. One state word of weight <= 5 (or >= 59) is enumerated
+	// exhaustively in each position and the seed recovered by inversion; the other three words are then whatever the expansion gives, so the
+	// best of 4 * 2 * 8.3e6 candidates reach beyond 8 sigma of the Binomial(256, 1/2) weight - a blind search would need 1e15 seeds for that
+	let mut light: Vec<(u32, u64)> = Vec::new();
+	let mut heavy: Vec<(u32, u64)> = Vec::new();
+	let keep = 2 * max;
+	let mut consider = |w: u64, light: &mut Vec<(u32, u64)>, heavy: &mut Vec<(u32, u64)>| {
+		for k0 in 0..4u64 {
+			let seed = unmix64(w).wrapping_sub(GAMMA.wrapping_mul(k0 + 1));
+			let mut t = 0u32;
+			for k in 1..=4u64 { t += mix64(seed.wrapping_add(GAMMA.wrapping_mul(k))).count_ones(); }
+			if light.len() < keep || t < light[light.len() - 1].0 {
+				if !light.iter().any(|e| e.1 == seed) { light.push((t, seed)); light.sort(); light.truncate(keep); }
+			}
+			if heavy.len() < keep || t > heavy[heavy.len() - 1].0 {
+				if !heavy.iter().any(|e| e.1 == seed) { heavy.push((t, seed)); heavy.sort_by(|x, y| y.cmp(x)); heavy.truncate(keep); }
+			}
+		}
+	};
+	let depth = req.get("weight").ok().and_then(|v| v.parse::<usize>().ok()).unwrap_or(5);
+	fn rec(base: u64, from: u32, left: usize, f: &mut dyn FnMut(u64)) {
+		f(base);
+		if left == 0 { return; }
+		for b in from..64 { rec(base | 1u64 << b, b + 1, left - 1, f); }
+	}
+	rec(0, 0, depth, &mut |w| { consider(w, &mut light, &mut heavy); consider(!w, &mut light, &mut heavy); });
+	for (_, sd) in light.iter().chain(heavy.iter()) { out.push(sd.to_string()); }
+	Ok(format!("seeds:{} light:{} heavy:{}", out.join(","), light.first().map(|e| e.0).unwrap_or(0), heavy.first().map(|e| e.0).unwrap_or(0)))
 }
 
 
